@@ -69,7 +69,7 @@ def build_real(spec):
              sklearn.preprocessing.MaxAbsScaler()][spec[1] % 3]
         return pykoop.SkLearnLiftingFn(t)
     if k == 'angle':
-        return pykoop.AnglePreprocessor(angle_features=np.array(spec[1], dtype=int),
+        return pykoop.AnglePreprocessor(angle_features=np.array(spec[3] if len(spec) > 3 else spec[1], dtype=int),
                                         unwrap_inverse=spec[2])
     if k == 'split':
         return pykoop.SplitPipeline(
@@ -105,14 +105,33 @@ def real_data(rng, order, ns, nu, ep):
     return vals
 
 
+# pipelines every data-path check meets at least once, whatever the random stream does: several delay stages
+# inside ONE branch of a SplitPipeline (the branch's sample count is the composition, not the max), delays on
+# both branches, a delay after a split, nested pipelines with delays
+CHAIN_POOL = [
+    [('split', [('delay', 1, 0), ('poly', 2, False), ('delay', 2, 0)], [('delay', 0, 1)])],
+    [('split', [('delay', 1, 0)], [('delay', 0, 2), ('delay', 0, 1)])],
+    [('split', [('delay', 2, 0), ('delay', 1, 0)], []), ('delay', 1, 1)],
+    [('pipe', [('delay', 1, 2), ('delay', 2, 1)]), ('bilinear',)],
+    [('split', [('pipe', [('delay', 1, 0), ('delay', 1, 0)])], [('delay', 0, 3)])],
+]
+
+
 def gen_real_case(rng, cid, max_len=3, max_depth=2, allow=None, short_prob=0.0, need=None,
-                  min_eps=1, max_eps=4, force_ep=None):
+                  min_eps=1, max_eps=4, force_ep=None, use_pool=True):
     allow = allow or sg.LEAF_KINDS
     for _ in range(300):
         ns = int(rng.integers(1, 4))
         nu = int(rng.integers(0, 3))
         ep = bool(rng.random() < 0.75) if force_ep is None else force_ep
-        chain, d = sg.gen_chain(rng, ns, nu, max_len, max_depth, allow)
+        if use_pool and cid < len(CHAIN_POOL) and set(sg.kinds_of(('pipe', CHAIN_POOL[cid]))) <= set(allow) | {'split', 'pipe'}:
+            chain = CHAIN_POOL[cid]; ns, nu = 2, 1
+            d = (ns, nu)
+            for sp in chain:
+                d = sg.dims_out(sp, *d)
+            need = None
+        else:
+            chain, d = sg.gen_chain(rng, ns, nu, max_len, max_depth, allow)
         if not chain:
             continue
         top = ('pipe', chain)
@@ -215,6 +234,21 @@ def c01_roundtrip(case, kp):
         if not pre:
             if not close(Tl[:, :ns], E[E.shape[0] - Tl.shape[0]:, :ns]):
                 return False, dict(what='leading lifted-state columns are not the original state', label=l)
+    # the lift and its inverse are functions of the VALUES: whole-number data given as an integer-typed array
+    # must be lifted and retracted exactly like the same numbers given as floats
+    Xw = np.round(np.asarray(X, dtype=float))
+    if ep:
+        Xw[:, 0] = np.asarray(X)[:, 0]
+    try:
+        Tf = kp.transform(Xw)
+        Ti = kp.transform(Xw.astype(np.int64))
+        If = kp.inverse_transform(Tf)
+        Ii = kp.inverse_transform(Ti)
+    except Exception as e:  # noqa
+        return False, dict(what=f'transform / inverse_transform on integer-typed data raised {type(e).__name__}: {e}')
+    if not (close(Ti, Tf) and close(Ii, If)):
+        return False, dict(what='transform / inverse_transform depend on the dtype of the data (integer-typed array with the '
+                                'same values gives other results)')
     return True, None
 
 
@@ -535,6 +569,28 @@ def c07_prediction(case, rng, kp0):
             if not np.array_equal(alone[:, 1:], ep_p[l]):
                 return False, dict(what='prediction of one episode depends on the other episodes', label=l,
                                    relift_state=relift)
+    # history: the Koopman matrix of the fitted regressor is replaced (the regressor is refitted / its coef_ is
+    # assigned) after predictions have been made: one-step and multi-step prediction must both follow
+    coef2 = rng.normal(size=coef.shape) * (0.3 / max(1.0, np.sqrt(nso + nuo)))
+    fresh = build_real_top(case['chain'], regressor=pykoop.DataRegressor(coef=coef2))
+    fresh.fit(case.get('Xfit', X), n_inputs=nu, episode_feature=ep)
+    try:
+        if int(case.get('cid', 0)) % 2 == 0:
+            kp.regressor_.coef_ = coef2
+        else:
+            kp.regressor_.set_params(coef=coef2)
+            kp.regressor_.fit(kp.transform(case.get('Xfit', X)), n_inputs=kp.n_inputs_out_, episode_feature=ep)
+        for relift in (True, False):
+            a = kp.predict_trajectory(X, relift_state=relift)
+            b = fresh.predict_trajectory(X, relift_state=relift)
+            if not close(a, b, 1e-9) and np.all(np.isfinite(b)):
+                return False, dict(what='after the regressor of a fitted pipeline received a new Koopman matrix, predict_trajectory '
+                                        'still iterates the old one (trajectory is not the iterated one-step prediction)',
+                                   relift_state=relift)
+        if not close(kp.predict(X), fresh.predict(X), 1e-9):
+            return False, dict(what='predict does not use the current Koopman matrix of the regressor')
+    except Exception as e:  # noqa
+        return False, dict(what=f'prediction after replacing the Koopman matrix raised {type(e).__name__}: {e}')
     # the prediction is a function of the VALUES of the data: integer-typed arrays holding the same
     # numbers as float arrays must give the same trajectories (both call forms)
     Xi = np.round(2 * X)
